@@ -192,7 +192,7 @@ func run(c *core.Ctx) error {
 			c.Inconclusive("vacuous exploration: no exported behaviour reaches the modelled defect path %q", need)
 		}
 	}
-	for _, need := range []string{"fields", "value", "decode", "tval", "tdef", "raw"} {
+	for _, need := range []string{"fields", "value", "decode", "tval", "tdef", "raw", "reset", "reuse"} {
 		if st.methods[need] == 0 {
 			c.Inconclusive("vacuous exploration: method %q never exercised", need)
 		}
